@@ -45,8 +45,10 @@ pub struct StatefulExecutor(StatefulExecutorRunnerGenerator);
 /// A dataset to differentiate between occurance of global and per-execution timeout
 #[derive(Debug, PartialEq, Eq, PartialOrd, Ord)]
 struct Timeout {
-    is_global: bool,
+    // the derived order compares fields in declaration order: the duration must come first, so
+    // that the minimum of two timeouts is the shorter one
     timeout: Duration,
+    is_global: bool,
 }
 
 impl StatefulExecutor {
